@@ -19,7 +19,7 @@ func init() {
 		Rule: "messages are built from generator-owned components (tags/source/verb/middles/trailing/CTCP) by an exhaustive product over small pools " +
 			"and by a PRNG grammar; the expectation is derived from the components, never from the parser; compared field by field with ParseLine's result, " +
 			"with Text/Target/Public, and with the line a foreground handler receives over an in-memory connection; a concurrent batch runs the same comparison from 8 goroutines under the race detector. A case is non-trivial/distinct by its " +
-			"Half of the wire sessions end with the stream cut inside a message (nothing of the fragment may reach a handler). (tag-shape, source-kind, verb-kind, arity bucket, trailing-shape, CTCP-kind, spacing) class; distinct_nontrivial counts the classes seen.",
+			"Parameter, trailing and tag-value alphabets include bytes that are not valid UTF-8 (latin-1, 0xff, lone continuation and lead bytes). A third of the wire sessions follow an RPL_ISUPPORT announcement (restrictive CHANTYPES, LINELEN ...), another third follow one made on an earlier, ended connection of the same client. Half of the wire sessions end with the stream cut inside a message (nothing of the fragment may reach a handler). (tag-shape, source-kind, verb-kind, arity bucket, trailing-shape, CTCP-kind, spacing) class; distinct_nontrivial counts the classes seen.",
 		Assumptions: []string{
 			"well-formedness as delimited by the property's quantifier (single space after tags/source, U+0020 as the only white space, CTCP payload VERB SP text)",
 			"nil and empty Args are treated as equal; Time is ignored",
